@@ -39,7 +39,7 @@ func NewStrategy(m *MethodEvaluator) MethodEvaluateStrategy {
 		return dynamicStrategy
 	}
 
-	if m.objectT.ToString() == "union" {
+	if m.objectT.IsUnionType() {
 		return &unionInstanceStrategy{}
 	}
 
